@@ -19,10 +19,10 @@ import (
 // ------------------------------------------------------------------ registry
 
 type HarnessSpec struct {
-	Name     string         `json:"name"`    // Go function name, e.g. H16_conv
-	Pkg      string         `json:"pkg"`     // tcell | terminfo | views
-	Params   map[string]int `json:"params"`  // tier-independent
-	Quick    map[string]int `json:"quick"`   // overrides for quick
+	Name     string         `json:"name"`   // Go function name, e.g. H16_conv
+	Pkg      string         `json:"pkg"`    // tcell | terminfo | views
+	Params   map[string]int `json:"params"` // tier-independent
+	Quick    map[string]int `json:"quick"`  // overrides for quick
 	Thorough map[string]int `json:"thorough"`
 	Split    []SplitDim     `json:"split"` // vsymChoice names fixed per job (cartesian product), to use all cores
 	Unwind   int            `json:"unwind"`
@@ -35,6 +35,10 @@ type HarnessSpec struct {
 	Solver       string `json:"solver"`
 	Note         string `json:"note"`
 	GOOS         string `json:"goos"`
+	// name of an uninterpreted function the harness leaves abstract: a counterexample whose
+	// model of that function disagrees with the real one does not replay; further members of
+	// its group are then tried (up to 12) and only a replayed one is reported
+	Abstracts string `json:"abstracts"`
 }
 
 type SplitDim struct {
@@ -43,13 +47,13 @@ type SplitDim struct {
 }
 
 type PropSpec struct {
-	LockSet     string        `json:"lockset"` // name of the native race-replay harness (C10)
-	BuildIsProperty bool      `json:"build_is_property"`
-	ID          string        `json:"id"`
-	Harnesses   []HarnessSpec `json:"harnesses"`
-	Bounds      []string      `json:"bounds"`
-	Outside     []string      `json:"outside"`
-	Assumptions []string      `json:"assumptions"`
+	LockSet         string        `json:"lockset"` // name of the native race-replay harness (C10)
+	BuildIsProperty bool          `json:"build_is_property"`
+	ID              string        `json:"id"`
+	Harnesses       []HarnessSpec `json:"harnesses"`
+	Bounds          []string      `json:"bounds"`
+	Outside         []string      `json:"outside"`
+	Assumptions     []string      `json:"assumptions"`
 }
 
 func loadRegistry() (map[string]*PropSpec, error) {
@@ -77,25 +81,25 @@ type Job struct {
 }
 
 type JobResult struct {
-	Label       string
-	Harness     string
-	Params      map[string]int
-	Paths       int
-	PathsByEnd  map[string]int
-	Branches    int
-	Forks       int
-	Instrs      int64
-	Solver      SolverStats
-	Asserts     map[string]*AssertSite
-	Violations  []*Violation
-	Incon       []string
-	Samples     []PathSample
-	Functions   map[string]int
-	Seconds     float64
-	ModelHits   int
-	BlockSites  map[string]int
-	Access      map[string]*AccessSummary
-	PassModels  []PassModel
+	Label      string
+	Harness    string
+	Params     map[string]int
+	Paths      int
+	PathsByEnd map[string]int
+	Branches   int
+	Forks      int
+	Instrs     int64
+	Solver     SolverStats
+	Asserts    map[string]*AssertSite
+	Violations []*Violation
+	Incon      []string
+	Samples    []PathSample
+	Functions  map[string]int
+	Seconds    float64
+	ModelHits  int
+	BlockSites map[string]int
+	Access     map[string]*AccessSummary
+	PassModels []PassModel
 }
 
 func pkgPathOf(short string) string {
